@@ -18,6 +18,24 @@ CLAIMED = {
              'case on the full call trace and result). Process machinery around _do_step is C13/C05.',
         technique='Lean 4 refinement proof (stepper model refines small-step semantics) + differential correspondence on generated outlines',
         design='6/C09'),
+    'C19': dict(
+        text='Lean theorems C19_members_roundtrip (+ _global, _persave), C19_autopersist_inherit_independent (+ _shared_leaks), '
+             'C19_future_state_restored, C19_loader_precedence, C19_unknown_class_valueerror (+ C19_loaded_class_is_resolved): '
+             'for every class family reachable by any sequence of decorator / classmethod declarations, every object tree of any '
+             'nesting depth (structural induction), every member kind and future state and every loader configuration, '
+             'load(save(o)) restores every declared member; a child\'s declarations reach the parent exactly when the '
+             'classmethod is used on a class that only inherits its set; the class is resolved by context loader > recorded '
+             'loader > global default; an unknown class or recorded loader is a ValueError and a returned object is always an '
+             'instance of the class the loader resolved. The model is compared with the real Savable/SavableFuture/loaders code on '
+             'all 64 loader configurations x 6 tamperings x member kinds, all declaration sequences up to length 2-3 and '
+             'thousands of random families and object trees, with the original mutated after save.',
+        note='Modelled, not verified: Savable.save/save_members/load/recreate_from/load_members/_get_value, '
+             '_ensure_object_loader, the auto_persist decorator and classmethod, SavableFuture (hand-written Lean mirror, '
+             'differential check per case); copy.deepcopy and asyncio.Future by contract. Copy-at-save is value semantics in the '
+             'model and is decided by the differential check (mutation after save), not by a theorem.',
+        technique='Lean 4 structural induction over nested object trees + ownership invariant of the set heap + differential '
+                  'correspondence on generated class families with in-process custom loaders',
+        design='6/C19'),
 }
 
 PM_NOTE = ('Modelled, not verified: Process.step / step_until_terminated / pause / play / kill / resume / fail / call_soon / '
